@@ -440,7 +440,7 @@ K_Post(p) ==
      IF Present(r)
      THEN ResCall(p, "POST", r, FALSE, cluster, KFail(o), KFail(o))
      ELSE ResCall(p, "POST", r, TRUE, [cluster EXCEPT ![r] = NewObj(o.tgtman[r])],
-                  KNext([o EXCEPT !.posted = @ \cup {r}]), KFail(o))
+                  KNext([o EXCEPT !.posted = IF o.ret = "" THEN @ \cup {r} ELSE @]), KFail(o))
 
 \* --force: helper.Replace, the rendered object replaces the live one wholesale (no patch is computed)
 \* (resource.Helper.Replace with overwrite first fetches the live object for its resourceVersion)
